@@ -264,6 +264,87 @@ fn c17(replay: Option<(usize, usize, usize, usize)>) -> (bool, String, String) {
     (false, "null".into(), "grid g1 0..4 x g2 0..3 x capacity {0,1,2,3,4,5,7,8,16}".into())
 }
 
+// ---- C01 / C02: small mixed-phase circuits; honest proofs verify, violated constraints are rejected ----
+/// k1 first-phase gates a_i*b_i with constraint o_i - c_i = 0 (c_i committed), k2 second-phase gates p_j*q_j (unconstrained),
+/// `alloc`: first-phase gates are built with allocate()/allocate() + a copy constraint instead of multiply()
+fn mixed_case(k1: usize, k2: usize, alloc: bool, viol: Option<(usize, i64, usize)>, cap: usize) -> Result<bool, String> {
+    let pc = PedersenGens::<Affine>::default();
+    let bp = BulletproofGens::<Affine>::new(cap, 1);
+    let a: Vec<Fr> = (0..k1).map(|i| Fr::from(3 + i as u64)).collect();
+    let b: Vec<Fr> = (0..k1).map(|i| Fr::from(5 + 2 * i as u64)).collect();
+    let pq: Vec<(Fr, Fr)> = (0..k2).map(|j| (Fr::from(2 + j as u64), Fr::from(3 + j as u64))).collect();
+    let mut outs: Vec<Fr> = a.iter().zip(b.iter()).map(|(x, y)| *x * y).collect();
+    outs.extend(pq.iter().map(|(p, q)| *p * q));
+    let mut c: Vec<Fr> = (0..k1).map(|i| a[i] * b[i]).collect();
+    if let Some((i, sign, j)) = viol {
+        let delta = if j == usize::MAX { Fr::one() } else { outs[j] };
+        c[i] = if sign >= 0 { c[i] + delta } else { c[i] - delta };
+    }
+    fn circuit<CS: RandomizableConstraintSystem<Fr>>(cs: &mut CS, av: &[Variable<Fr>], bv: &[Variable<Fr>], cv: &[Variable<Fr>], pv: Vec<(Variable<Fr>, Variable<Fr>)>,
+            alloc: bool, vals: Option<(Vec<Fr>, Vec<Fr>)>) -> Result<(), R1CSError> {
+        for i in 0..av.len() {
+            let o = if alloc {
+                let l = cs.allocate(vals.as_ref().map(|v| v.0[i]))?;
+                let r = cs.allocate(vals.as_ref().map(|v| v.1[i]))?;
+                cs.constrain(l - av[i]); cs.constrain(r - bv[i]);
+                // output of the gate the two allocations share
+                let (_, _, o) = cs.multiply(l.into(), r.into());
+                o
+            } else { cs.multiply(av[i].into(), bv[i].into()).2 };
+            cs.constrain(o - cv[i]);
+        }
+        if !pv.is_empty() {
+            cs.specify_randomized_constraints(move |cs| { let _ = cs.challenge_scalar(b"z"); for (p, q) in pv.iter() { cs.multiply((*p).into(), (*q).into()); } Ok(()) })?;
+        }
+        Ok(())
+    }
+    let mut r = rng(2);
+    let mut tp = Transcript::new(b"mixed");
+    let mut p = Prover::new(&pc, &mut tp);
+    let mut coms = vec![];
+    let mut commit = |p: &mut Prover<Affine, &mut Transcript>, v: Fr, coms: &mut Vec<Affine>| { let (cm, var) = p.commit(v, Fr::rand(&mut r)); coms.push(cm); var };
+    let av: Vec<_> = a.iter().map(|v| commit(&mut p, *v, &mut coms)).collect();
+    let bv: Vec<_> = b.iter().map(|v| commit(&mut p, *v, &mut coms)).collect();
+    let cv: Vec<_> = c.iter().map(|v| commit(&mut p, *v, &mut coms)).collect();
+    let pv: Vec<_> = pq.iter().map(|(x, y)| (commit(&mut p, *x, &mut coms), commit(&mut p, *y, &mut coms))).collect();
+    circuit(&mut p, &av, &bv, &cv, pv, alloc, Some((a.clone(), b.clone()))).map_err(|e| format!("prover circuit: {:?}", e))?;
+    let mut r2 = rng(3);
+    let proof = match p.prove(&mut r2, &bp) { Ok(pf) => pf, Err(e) => return Err(format!("prove failed: {:?}", e)) };
+    let mut tv = Transcript::new(b"mixed");
+    let mut v = Verifier::<Affine, _>::new(&mut tv);
+    let mut it = coms.iter();
+    let av: Vec<_> = (0..k1).map(|_| v.commit(*it.next().unwrap())).collect();
+    let bv: Vec<_> = (0..k1).map(|_| v.commit(*it.next().unwrap())).collect();
+    let cv: Vec<_> = (0..k1).map(|_| v.commit(*it.next().unwrap())).collect();
+    let pv: Vec<_> = (0..k2).map(|_| (v.commit(*it.next().unwrap()), v.commit(*it.next().unwrap()))).collect();
+    circuit(&mut v, &av, &bv, &cv, pv, alloc, None).map_err(|e| format!("verifier circuit: {:?}", e))?;
+    Ok(v.verify(&proof, &pc, &bp).is_ok())
+}
+fn c01(replay: Option<(usize, usize, usize)>) -> (bool, String, String) {
+    let run = |k1: usize, k2: usize, al: usize| -> Option<String> {
+        match catch_unwind(AssertUnwindSafe(|| mixed_case(k1, k2, al == 1, None, 32))) {
+            Err(_) => Some(format!("panic while proving/verifying an honest circuit k1={} k2={} allocate={}", k1, k2, al)),
+            Ok(Err(e)) => Some(format!("honest circuit k1={} k2={} allocate={}: {}", k1, k2, al, e)),
+            Ok(Ok(false)) => Some(format!("honest proof of a satisfied circuit rejected: k1={} first-phase gates, k2={} second-phase gates, allocate={}", k1, k2, al)),
+            Ok(Ok(true)) => None } };
+    if let Some((a, b, c)) = replay { return match run(a, b, c) { Some(m) => (true, format!("[{},{},{}]", a, b, c), m), None => (false, format!("[{},{},{}]", a, b, c), "ok".into()) }; }
+    for k1 in 0..=4 { for k2 in 0..=3 { for al in 0..=1 { if let Some(m) = run(k1, k2, al) { return (true, format!("[{},{},{}]", k1, k2, al), m); } } } }
+    (false, "null".into(), "honest proofs for k1 in 0..4 first-phase x k2 in 0..3 second-phase gates, multiply and allocate styles".into())
+}
+fn c02(replay: Option<(usize, usize, usize, usize, usize)>) -> (bool, String, String) {
+    let run = |k1: usize, k2: usize, i: usize, sg: usize, j: usize| -> Option<String> {
+        let jj = if j == 99 { usize::MAX } else { j };
+        match catch_unwind(AssertUnwindSafe(|| mixed_case(k1, k2, false, Some((i, if sg == 1 { 1 } else { -1 }, jj)), 32))) {
+            Ok(Ok(true)) => Some(format!("violated constraint ACCEPTED: k1={} k2={}: c_{} is off by {}{}", k1, k2, i, if sg == 1 { "+" } else { "-" }, if j == 99 { "1".to_string() } else { format!("output of gate {}", j) })),
+            _ => None } };
+    if let Some((a, b, c, d, e)) = replay { return match run(a, b, c, d, e) { Some(m) => (true, format!("[{},{},{},{},{}]", a, b, c, d, e), m), None => (false, format!("[{},{},{},{},{}]", a, b, c, d, e), "rejected".into()) }; }
+    for k1 in 1..=3 { for k2 in 0..=2 { for i in 0..k1 { for sg in 0..=1 { for j in (0..k1 + k2).chain(std::iter::once(99)) {
+        if j == i { continue; }
+        if let Some(m) = run(k1, k2, i, sg, j) { return (true, format!("[{},{},{},{},{}]", k1, k2, i, sg, j), m); }
+    } } } } }
+    (false, "null".into(), "constraint o_i = c_i violated by +-1 and by +- every other gate output, k1 in 1..3 x k2 in 0..2".into())
+}
+
 // ---- C14: zorro constants and mul_by_a on the real types ----
 fn c14() -> (bool, String, String) {
     use ark_bulletproofs::curve::zorro::{Fq, Fr as ZFr, G1Affine, Parameters};
@@ -290,6 +371,8 @@ fn main() {
     let prop = args.get(1).cloned().unwrap_or_default();
     let rep = if args.get(2).map(|s| s.as_str()) == Some("--replay") { args.get(3).map(|s| nums(s)) } else { None };
     let (found, input, observed) = match prop.as_str() {
+        "C01" => c01(rep.filter(|v| v.len() == 3).map(|v| (v[0] as usize, v[1] as usize, v[2] as usize))),
+        "C02" => c02(rep.filter(|v| v.len() == 5).map(|v| (v[0] as usize, v[1] as usize, v[2] as usize, v[3] as usize, v[4] as usize))),
         "C08" => c08(rep.filter(|v| v.len() == 3).map(|v| (v[0] as usize, v[1] as usize, v[2] as usize))),
         "C13" => c13(),
         "C15" => c15(rep.and_then(|v| v.first().cloned())),
